@@ -431,12 +431,35 @@ template<typename T, typename C, typename A>
 template<typename S>
 auto req_compactor<T, C, A>::deserialize_items(std::istream& is, const S& serde, const A& allocator, uint32_t num)
 -> std::unique_ptr<T, items_deleter> {
+  // The length of a stream is unknown, so the announced number of items cannot be checked against it.
+  // Up to min_chunk items are read with one serde call as before; beyond that the array is grown as the data arrives
+  // (doubling, never beyond the announced number) so that a corrupted count cannot force a huge allocation up front.
+  const uint32_t min_chunk = 1 << 16;
   A alloc(allocator);
-  std::unique_ptr<T, items_deleter> items(alloc.allocate(num), items_deleter(allocator, false, num));
-  serde.deserialize(is, items.get(), num);
-  // serde did not throw, enable destructors
+  uint32_t capacity = std::min(num, min_chunk);
+  std::unique_ptr<T, items_deleter> items(alloc.allocate(capacity), items_deleter(allocator, false, capacity));
+  uint32_t done = 0; // items constructed so far
+  try {
+    while (true) {
+      serde.deserialize(is, items.get() + done, capacity - done);
+      // serde did not throw, the items are constructed
+      done = capacity;
+      if (!is.good()) throw std::runtime_error("error reading from std::istream");
+      if (done == num) break;
+      capacity = num - done > done ? 2 * done : num;
+      std::unique_ptr<T, items_deleter> new_items(alloc.allocate(capacity), items_deleter(allocator, false, capacity));
+      for (uint32_t i = 0; i < done; ++i) {
+        new (new_items.get() + i) T(std::move(items.get()[i]));
+        items.get()[i].~T();
+      }
+      items = std::move(new_items);
+    }
+  } catch (...) {
+    for (uint32_t i = 0; i < done; ++i) items.get()[i].~T();
+    throw;
+  }
+  // all items are constructed, enable destructors
   items.get_deleter().set_destroy(true);
-  if (!is.good()) throw std::runtime_error("error reading from std::istream");
   return items;
 }
 
